@@ -4,53 +4,67 @@
    XmlText_proofs.v, Utf16_proofs.v.
    The XML models start at the event list delivered by quick-xml (already unescaped strings):
    entity / character-reference spelling is below that level and is sampled by the end-to-end
-   runs of tools/props/c19.py.  Known classes (known_item / known_store / known_content):
-   F12 CDATA sections dropped, F34 prefixed <x:si>/<x:is> without a plain <t>, F35 ods
-   <text:tab/>, F36 ods <text:line-break/>, F37 xlsx _xHHHH_ escapes (ST_Xstring) not decoded. *)
+   runs of tools/props/c19.py.  Source state: /repo at db4dbf4.
+   Known classes left (known_item / known_store / known_content): F35 ods <text:tab/>, F36 ods
+   <text:line-break/>, F37 xlsx _xHHHH_ escapes (ST_Xstring) not decoded.  The former classes
+   F12 (CDATA sections dropped) and F34 (prefixed <x:si>/<x:is> without a plain <t> never
+   closed) were repaired by db4dbf4 / 7dba6c7: the theorems below now cover CDATA in every text
+   position and rich / empty items under every namespace prefix. *)
 From Calamine Require Import Prelude XmlText XmlText_proofs Utf16 Utf16_proofs.
 Open Scope N_scope.
 
-(* ---------- xlsx: one string item (<si> or <is>), any form ---------- *)
+(* ---------- xlsx: one string item (<si> or <is>), any form, any prefix ---------- *)
 Theorem C19_read_string_item : forall pfx cl f rest,
-  no_colon pfx = true -> cl_ok cl -> legal_form f = true -> known_item pfx f = None ->
+  no_colon pfx = true -> cl_ok cl -> legal_form f = true -> known_item f = None ->
   read_string (qn pfx cl) (item_events pfx f ++ End (qn pfx cl) :: rest) = Ok (item_result f, rest).
 Proof. exact read_string_item. Qed.
 
-Theorem C19_runs_concatenate : forall cl ps rest,
-  cl_ok cl -> forallb legal_piece ps = true -> known_item [] (FRich ps) = None ->
+Theorem C19_runs_concatenate : forall pfx cl ps rest,
+  no_colon pfx = true -> cl_ok cl -> forallb legal_piece ps = true ->
+  known_item (FRich ps) = None ->
   existsb (fun p => negb (is_phonetic p)) ps = true ->
-  read_string cl (flat_map (piece_events []) ps ++ End cl :: rest) =
+  read_string (qn pfx cl) (flat_map (piece_events pfx) ps ++ End (qn pfx cl) :: rest) =
   Ok (Some (flat_map piece_text ps), rest).
 Proof. exact runs_concatenate. Qed.
 
 (* any string, cut into runs at any points that do not fall inside an _xHHHH_ escape *)
-Theorem C19_runs_at_any_cuts : forall cl cuts s rest, cl_ok cl -> cuts_ok cuts s = true ->
-  read_string cl (item_events [] (runs_of cuts s) ++ End cl :: rest) = Ok (Some s, rest).
+Theorem C19_runs_at_any_cuts : forall pfx cl cuts s rest,
+  no_colon pfx = true -> cl_ok cl -> cuts_ok cuts s = true ->
+  read_string (qn pfx cl) (item_events pfx (runs_of cuts s) ++ End (qn pfx cl) :: rest) =
+  Ok (Some s, rest).
 Proof. exact runs_at_any_cuts. Qed.
 
 Theorem C19_phonetic_contributes_nothing : forall pfx cl f rest rest',
-  no_colon pfx = true -> cl_ok cl -> legal_form f = true -> known_item pfx f = None ->
+  no_colon pfx = true -> cl_ok cl -> legal_form f = true -> known_item f = None ->
   exists r,
     read_string (qn pfx cl) (item_events pfx f ++ End (qn pfx cl) :: rest) = Ok (r, rest) /\
     read_string (qn pfx cl) (item_events pfx (strip_phonetic f) ++ End (qn pfx cl) :: rest') = Ok (r, rest').
 Proof. exact phonetic_contributes_nothing. Qed.
 
+(* entity vs CDATA: a CDATA section reads exactly like the same characters written as text, in
+   every <t> of every legal form (no known-class hypothesis) *)
+Theorem C19_cdata_is_text : forall pfx cl f rest,
+  no_colon pfx = true -> cl_ok cl -> legal_form f = true ->
+  read_string (qn pfx cl) (item_events pfx f ++ End (qn pfx cl) :: rest) =
+  read_string (qn pfx cl) (item_events pfx (uncdata_form f) ++ End (qn pfx cl) :: rest).
+Proof. exact cdata_is_text. Qed.
+
 (* ---------- xlsx: the shared-string table ---------- *)
 Theorem C19_shared_index_is_ith_item : forall pfx sattrs items,
   no_colon pfx = true ->
-  forallb (fun it => legal_form (snd it)) items = true -> known_items pfx items = None ->
+  forallb (fun it => legal_form (snd it)) items = true -> known_items items = None ->
   exists strs, read_shared_strings (sst_events pfx sattrs items) = Ok strs /\
     length strs = length items /\
     forall i, nth_error strs i = option_map (fun it => item_text (snd it)) (nth_error items i).
 Proof. exact shared_index_is_ith_item. Qed.
 
-(* positions survive even next to items of class F12 (only a prefixed rich item, F34, breaks the part) *)
+(* positions survive whatever the items hold: an item of class F37 spoils only itself *)
 Theorem C19_shared_table_positional : forall pfx sattrs items,
   no_colon pfx = true ->
-  forallb (fun it => legal_form (snd it)) items = true -> no_f34 pfx items = true ->
+  forallb (fun it => legal_form (snd it)) items = true ->
   exists strs, read_shared_strings (sst_events pfx sattrs items) = Ok strs /\
     length strs = length items /\
-    forall i ws f, nth_error items i = Some (ws, f) -> known_item pfx f = None ->
+    forall i ws f, nth_error items i = Some (ws, f) -> known_item f = None ->
       nth_error strs i = Some (item_text f).
 Proof. exact shared_table_positional. Qed.
 
@@ -58,7 +72,7 @@ Proof. exact shared_table_positional. Qed.
 Theorem C19_text_survives_xlsx : forall pfx sattrs items ref st s rest,
   no_colon pfx = true ->
   forallb (fun it => legal_form (snd it)) items = true -> legal_store st = true ->
-  known_xlsx pfx items st = None ->
+  known_xlsx items st = None ->
   stored_text items st = Some s ->
   exists strings,
     read_shared_strings (sst_events pfx sattrs items) = Ok strings /\
@@ -68,12 +82,19 @@ Proof. exact text_survives_xlsx. Qed.
 (* a whole sheet (the loop of next_cell): every text cell of every row, in order *)
 Theorem C19_sheet_text_survives : forall pfx sattrs items cells,
   no_colon pfx = true ->
-  forallb (fun it => legal_form (snd it)) items = true -> no_f34 pfx items = true ->
-  forallb (cell_ok pfx items) cells = true ->
+  forallb (fun it => legal_form (snd it)) items = true ->
+  forallb (cell_ok items) cells = true ->
   exists strings,
     read_shared_strings (sst_events pfx sattrs items) = Ok strings /\
     read_sheet_cells strings (sheet_events pfx cells) = Ok (map (cell_spec items) cells).
 Proof. exact sheet_text_survives. Qed.
+
+(* the formula text itself (worksheet_formula: the loop of next_formula, read_formula): the
+   characters of <f>, Text and CDATA chunks alike; cells without <f> have none *)
+Theorem C19_formula_text_survives : forall pfx cells,
+  no_colon pfx = true -> forallb (fun c => legal_store (snd c)) cells = true ->
+  read_sheet_formulas (sheet_events pfx cells) = Ok (map fcell_spec cells).
+Proof. exact sheet_formulas_survive. Qed.
 
 (* ---------- ods ---------- *)
 Theorem C19_ods_space_paragraph_roundtrip : forall cname extra cs rest,
@@ -133,52 +154,21 @@ Theorem C19_decode_to_16bit : forall s rest, Forall scalar s ->
   (s, utf16_len s, 2 * utf16_len s).
 Proof. exact decode_to_16bit. Qed.
 
-(* ---------- refutations: the known classes are genuine ---------- *)
-Theorem C19_refuted_F12_shared :
-  exists f, legal_form f = true /\ known_item [] f = Some K_F12 /\
-    forall rest, read_string n_si (item_events [] f ++ End n_si :: rest) <> Ok (item_result f, rest).
-Proof. exact refuted_F12_shared. Qed.
-
-Theorem C19_refuted_F12_formula :
-  exists st, legal_store st = true /\ known_store [] st = Some K_F12 /\
-    stored_text [] st = Some [117; 118; 119] /\
-    read_cell [] (cell_attrs [65; 49] st) (cell_events [] st) = Ok (CString [117; 119], []).
-Proof. exact refuted_F12_formula. Qed.
-
-Theorem C19_refuted_F12_ods :
-  exists cs, legal_content cs = true /\ known_content cs = Some K_F12 /\
-    content_text cs = [97; 98] /\
-    ods_cell o_cell (ods_cell_attrs [] (OsContent cs)) (ods_cell_events o_cell (OsContent cs)) =
-    Ok (OString [98], [], []).
-Proof. exact refuted_F12_ods. Qed.
-
+(* ---------- refutations: the remaining known classes are genuine ---------- *)
+(* each of these three blocks disappears with its switch (XmlText.v): see notes/C19.md *)
 Theorem C19_refuted_F37 :
-  exists f, legal_form f = true /\ known_item [] f = Some K_F37 /\
+  exists f, legal_form f = true /\ known_item f = Some K_F37 /\
     item_text f = [97; 13] /\
     forall rest, read_string n_si (item_events [] f ++ End n_si :: rest) =
                  Ok (Some [97; 95; 120; 48; 48; 48; 68; 95], rest).
 Proof. exact refuted_F37. Qed.
 
-Theorem C19_refuted_F34 :
-  exists pfx f, no_colon pfx = true /\ legal_form f = true /\ known_item pfx f = Some K_F34 /\
-    item_result f = Some [97] /\
-    read_shared_strings (sst_events pfx [] [([], f)]) = Err ERR_EOF.
-Proof. exact refuted_F34. Qed.
-
-Theorem C19_refuted_F34_inline_swallows :
-  exists pfx cells, no_colon pfx = true /\
-    known_xlsx pfx [] (StInline (FRich [])) = Some K_F34 /\
-    map (cell_spec []) cells = [([(a_r, [65; 49]); (a_t, v_inlineStr)], CEmpty);
-                                ([(a_r, [66; 49]); (a_t, v_inlineStr)], CString [124])] /\
-    read_sheet_cells [] (sheet_events pfx cells) =
-    Ok [([(a_r, [65; 49]); (a_t, v_inlineStr)], CString [124])].
-Proof. exact refuted_F34_inline_swallows. Qed.
-
-Theorem C19_F34_never_returns_at_own_end : forall x p cl rich phon rest,
-  no_colon (x :: p) = true -> no_colon cl = true ->
-  rs_run (qn (x :: p) cl) (RsOuter rich phon) (End (qn (x :: p) cl) :: rest) =
-  rs_run (qn (x :: p) cl) (RsOuter rich (if str_eqb cl n_rPh then false else phon)) rest.
-Proof. exact F34_never_returns_at_own_end. Qed.
+Theorem C19_refuted_F37_formula :
+  exists st, legal_store st = true /\ known_store st = Some K_F37 /\
+    stored_text [] st = Some [10] /\
+    read_cell [] (cell_attrs [65; 49] st) (cell_events [] st) =
+    Ok (CString [95; 120; 48; 48; 48; 97; 95], []).
+Proof. exact refuted_F37_formula. Qed.
 
 Theorem C19_refuted_F35 :
   exists cs, legal_content cs = true /\ known_content cs = Some K_F35 /\
@@ -195,38 +185,48 @@ Theorem C19_refuted_F36 :
 Proof. exact refuted_F36. Qed.
 
 (* ---------- non-vacuity ---------- *)
-(* a prefixed plain item with phonetic data; a rich item with run properties, phonetic runs
-   interleaved and an empty run; an empty item; a shared cell pointing at the rich item *)
+(* under the prefix "x": a plain item holding text + CDATA + comment + text with phonetic data;
+   an empty item; a rich item with run properties, phonetic runs interleaved, an empty run, a run
+   made of two adjacent CDATA sections (the way "]]>" is embedded) and a run mixing text and
+   CDATA; shared cells pointing at them (one through a zero-padded index), an inline string and
+   a formula string whose <f> and <v> hold CDATA.  The former F34 / F12 witnesses are among them
+   and read correctly. *)
 Example C19_xlsx_nonvacuous :
   let x := [120] in
   let rich := FRich [PRun [([98], []); ([115; 122], [([118; 97; 108], [49; 49])])] true [TcText [97; 32]];
-                     PPhon [TcText [12450]]; PRun [] false [TcOther; TcText [38; 60]];
-                     PRun [] false []; PPhonPr] in
-  let items := [([], FPlain true [TcText [32; 97]; TcOther; TcText [98; 32]] [PPhon [TcText [120]]; PPhonPr]);
+                     PPhon [TcCData [12450]]; PRun [] false [TcCData [93; 93]; TcCData [62]];
+                     PRun [] false []; PRun [] false [TcText [38]; TcCData [60; 98]; TcOther; TcText [62]];
+                     PPhonPr] in
+  let items := [([], FPlain true [TcText [32; 97]; TcCData [60; 38]; TcOther; TcText [98; 32]] [PPhon [TcText [120]]; PPhonPr]);
                 ([10; 32], FRich []); ([], rich)] in
-  no_colon x = true /\ cl_ok n_si /\
+  let cells := [([], [65; 49], StShared [48; 48; 50]);
+                ([([114], [50])], [65; 50], StInline (FPlain true [TcCData [32]] [PPhonPr]));
+                ([], [65; 51], StFormula [TcText [49]; TcCData [60; 50]] [TcCData [60]; TcText [9; 10]]);
+                ([], [65; 52], StInline (FRich [])); ([], [65; 53], StShared [49])] in
+  no_colon x = true /\ cl_ok n_si /\ cl_ok n_is /\
   forallb (fun it => legal_form (snd it)) items = true /\
-  known_xlsx [] items (StShared [50]) = None /\
-  stored_text items (StShared [50]) = Some [97; 32; 38; 60] /\
-  known_xlsx x [(@nil N, FPlain false [TcText [97]] [PPhon [TcText [98]]])]
-             (StFormula [TcText [49]] [TcText [97]; TcOther; TcText [9; 10]]) = None /\
+  known_items items = None /\
+  known_xlsx items (StShared [50]) = None /\
+  stored_text items (StShared [50]) = Some [97; 32; 93; 93; 62; 38; 60; 98; 62] /\
   existsb (fun p => negb (is_phonetic p)) (match rich with FRich ps => ps | _ => [] end) = true /\
-  no_f34 x [(@nil N, FPlain false [TcCData [97]] []); ([], FPlain false [TcText [98]] [])] = true /\
   cuts_ok [2%nat; 0%nat; 3%nat] [32; 97; 38; 95; 120; 60; 128512; 32] = true /\
-  forallb (cell_ok x [(@nil N, FPlain false [TcText [98]] [])])
-    [([], [65; 49], StShared [48; 48]); ([([114], [50])], [65; 50], StInline (FPlain true [TcText [32]] [PPhonPr]));
-     ([], [65; 51], StFormula [] [TcText [60]])] = true /\
-  read_shared_strings (sst_events [] [] items) = Ok [[32; 97; 98; 32]; []; [97; 32; 38; 60]].
-Proof. cbn zeta. repeat split; try (left; reflexivity); vm_compute; reflexivity. Qed.
+  forallb (cell_ok items) cells = true /\
+  forallb (fun c => legal_store (snd c)) cells = true /\
+  read_shared_strings (sst_events x [] items) =
+    Ok [[32; 97; 60; 38; 98; 32]; []; [97; 32; 93; 93; 62; 38; 60; 98; 62]] /\
+  map snd (map fcell_spec cells) = [FvNone; FvNone; FvText [49; 60; 50]; FvNone; FvNone].
+Proof. cbn zeta. repeat split; try (left; reflexivity); try (right; reflexivity); vm_compute; reflexivity. Qed.
 
+(* ods: an annotation, text:s with and without count, spans, a comment, CDATA sections (alone,
+   adjacent, inside a span), an empty paragraph *)
 Example C19_ods_nonvacuous :
   let cs := [CAnnot [Start o_p []; Text [110]; End o_p];
-             CPara [OSp (Some [51]); OLit [97; 32]; OSpanOpen [84]; OSp None; OLit [98]; OSpanClose;
-                    OSp (Some [48]); OOther; OLit [9]];
-             CPara []; CPara [OLit [99]]] in
+             CPara [OSp (Some [51]); OLit [97; 32]; OSpanOpen [84]; OSp None; OCD [98; 60]; OSpanClose;
+                    OSp (Some [48]); OOther; OCD [93; 93]; OCD [62]; OLit [9]];
+             CPara []; CPara [OCD [99]]] in
   cell_name_ok o_cell /\ legal_extra [([115], [49])] = true /\ legal_content cs = true /\
   known_content cs = None /\ legal_ods_full o_covered (OsAttr [97] cs) = true /\
-  content_text cs = [32; 32; 32; 97; 32; 32; 98; 9; 10; 10; 99].
+  content_text cs = [32; 32; 32; 97; 32; 32; 98; 60; 93; 93; 62; 9; 10; 10; 99].
 Proof. cbn zeta. repeat split; try (left; reflexivity); vm_compute; reflexivity. Qed.
 
 Example C19_utf16_nonvacuous :
@@ -241,29 +241,36 @@ Example C19_lone_surrogate_nonvacuous :
 Proof. repeat split; try (repeat constructor; fail); vm_compute; reflexivity. Qed.
 
 Check C19_read_string_item : forall pfx cl f rest,
-  no_colon pfx = true -> cl_ok cl -> legal_form f = true -> known_item pfx f = None ->
+  no_colon pfx = true -> cl_ok cl -> legal_form f = true -> known_item f = None ->
   read_string (qn pfx cl) (item_events pfx f ++ End (qn pfx cl) :: rest) = Ok (item_result f, rest).
+Check C19_cdata_is_text : forall pfx cl f rest,
+  no_colon pfx = true -> cl_ok cl -> legal_form f = true ->
+  read_string (qn pfx cl) (item_events pfx f ++ End (qn pfx cl) :: rest) =
+  read_string (qn pfx cl) (item_events pfx (uncdata_form f) ++ End (qn pfx cl) :: rest).
 Check C19_shared_index_is_ith_item : forall pfx sattrs items,
   no_colon pfx = true ->
-  forallb (fun it => legal_form (snd it)) items = true -> known_items pfx items = None ->
+  forallb (fun it => legal_form (snd it)) items = true -> known_items items = None ->
   exists strs, read_shared_strings (sst_events pfx sattrs items) = Ok strs /\
     length strs = length items /\
     forall i, nth_error strs i = option_map (fun it => item_text (snd it)) (nth_error items i).
 Check C19_text_survives_xlsx : forall pfx sattrs items ref st s rest,
   no_colon pfx = true ->
   forallb (fun it => legal_form (snd it)) items = true -> legal_store st = true ->
-  known_xlsx pfx items st = None ->
+  known_xlsx items st = None ->
   stored_text items st = Some s ->
   exists strings,
     read_shared_strings (sst_events pfx sattrs items) = Ok strings /\
     read_cell strings (cell_attrs ref st) (cell_events pfx st ++ rest) = Ok (cell_expected st s, rest).
 Check C19_sheet_text_survives : forall pfx sattrs items cells,
   no_colon pfx = true ->
-  forallb (fun it => legal_form (snd it)) items = true -> no_f34 pfx items = true ->
-  forallb (cell_ok pfx items) cells = true ->
+  forallb (fun it => legal_form (snd it)) items = true ->
+  forallb (cell_ok items) cells = true ->
   exists strings,
     read_shared_strings (sst_events pfx sattrs items) = Ok strings /\
     read_sheet_cells strings (sheet_events pfx cells) = Ok (map (cell_spec items) cells).
+Check C19_formula_text_survives : forall pfx cells,
+  no_colon pfx = true -> forallb (fun c => legal_store (snd c)) cells = true ->
+  read_sheet_formulas (sheet_events pfx cells) = Ok (map fcell_spec cells).
 Check C19_text_survives_ods : forall cname extra st rest,
   cell_name_ok cname -> legal_extra extra = true -> legal_ods_full cname st = true ->
   known_ods st = None ->
@@ -278,11 +285,12 @@ Print Assumptions C19_read_string_item.
 Print Assumptions C19_runs_concatenate.
 Print Assumptions C19_runs_at_any_cuts.
 Print Assumptions C19_phonetic_contributes_nothing.
+Print Assumptions C19_cdata_is_text.
 Print Assumptions C19_shared_index_is_ith_item.
 Print Assumptions C19_shared_table_positional.
 Print Assumptions C19_text_survives_xlsx.
 Print Assumptions C19_sheet_text_survives.
-Print Assumptions C19_refuted_F34_inline_swallows.
+Print Assumptions C19_formula_text_survives.
 Print Assumptions C19_ods_space_paragraph_roundtrip.
 Print Assumptions C19_text_survives_ods.
 Print Assumptions C19_ods_encode_survives.
@@ -293,11 +301,7 @@ Print Assumptions C19_utf16_decode_scalars.
 Print Assumptions C19_text_survives_utf16.
 Print Assumptions C19_decode_to_8bit.
 Print Assumptions C19_decode_to_16bit.
-Print Assumptions C19_refuted_F12_shared.
-Print Assumptions C19_refuted_F12_formula.
-Print Assumptions C19_refuted_F12_ods.
 Print Assumptions C19_refuted_F37.
-Print Assumptions C19_refuted_F34.
-Print Assumptions C19_F34_never_returns_at_own_end.
+Print Assumptions C19_refuted_F37_formula.
 Print Assumptions C19_refuted_F35.
 Print Assumptions C19_refuted_F36.
